@@ -286,6 +286,21 @@ pub fn opaque_key(public: Vec<u8>, alg: &'static rcgen::SignatureAlgorithm) -> R
 	rcgen::KeyPair::from_remote(Box::new(OpaqueRemote { public, alg })).map_err(|e| format!("from_remote: {e}"))
 }
 
+/// Number of loading routes `make_key` cycles through.
+pub const LOADER_ROUTES: usize = 12;
+
+/// The fixture's Ed25519 key in the 85-octet PKCS#8 v2 layout of ring < 0.17 / rcgen < 0.12.
+#[cfg(feature = "crypto")]
+pub fn ed25519_old_v2(fx: &Fixture) -> Vec<u8> {
+	let pos = fx.pk8.windows(4).position(|w| w == [0x04, 0x22, 0x04, 0x20]).expect("Ed25519 fixture holds a seed");
+	let seed = &fx.pk8[pos + 4..pos + 36];
+	let mut v = vec![0x30, 0x53, 0x02, 0x01, 0x01, 0x30, 0x05, 0x06, 0x03, 0x2b, 0x65, 0x70, 0x04, 0x22, 0x04, 0x20];
+	v.extend_from_slice(seed);
+	v.extend_from_slice(&[0xa1, 0x23, 0x03, 0x21, 0x00]);
+	v.extend_from_slice(&fx.raw_public);
+	v
+}
+
 /// Builds the rcgen key pair a `KeySpec` describes.
 pub fn make_key(k: &KeySpec) -> Result<rcgen::KeyPair, String> {
 	if k.remote || !cfg!(feature = "crypto") {
@@ -300,7 +315,10 @@ pub fn make_key(k: &KeySpec) -> Result<rcgen::KeyPair, String> {
 		let fx = fixture(k);
 		let pool = fixtures().pools[&k.alg].len();
 		let alg = rcgen_alg(k);
-		let sel = (k.idx as usize / pool) % 7;
+		let sel = (k.idx as usize / pool) % LOADER_ROUTES;
+		// the auto-detecting loaders give RSA keys the SHA-256 algorithm
+		let auto_ok = !k.is_rsa() || k.rsa_hash == RsaHash::Sha256;
+		let legacy_label = if k.is_rsa() { "RSA PRIVATE KEY" } else { "EC PRIVATE KEY" };
 		let pk8 = PrivatePkcs8KeyDer::from(fx.pk8.as_slice());
 		let r = match sel {
 			0 => rcgen::KeyPair::from_pkcs8_der_and_sign_algo(&pk8, alg),
@@ -311,6 +329,14 @@ pub fn make_key(k: &KeySpec) -> Result<rcgen::KeyPair, String> {
 			5 => rcgen::KeyPair::from_pem_and_sign_algo(&with_pem_headers(&crate::pemstrict::encode("PRIVATE KEY", &fx.pk8)), alg),
 			6 if !k.is_rsa() || k.rsa_hash == RsaHash::Sha256 => rcgen::KeyPair::from_pem(&with_pem_headers(&crate::pemstrict::encode("PRIVATE KEY", &fx.pk8))),
 			6 => rcgen::KeyPair::from_pkcs8_pem_and_sign_algo(&with_pem_headers(&crate::pemstrict::encode("PRIVATE KEY", &fx.pk8)), alg),
+			// the auto-detecting loaders, owned and borrowed input
+			7 if auto_ok => rcgen::KeyPair::try_from(fx.pk8.clone()),
+			8 if auto_ok => rcgen::KeyPair::try_from(fx.pk8.as_slice()),
+			9 if auto_ok && cfg!(feature = "aws_be") && fx.legacy.is_some() => rcgen::KeyPair::try_from(fx.legacy.clone().unwrap()),
+			10 if auto_ok && cfg!(feature = "aws_be") && fx.legacy.is_some() => rcgen::KeyPair::from_pem(&crate::pemstrict::encode(legacy_label, fx.legacy.as_ref().unwrap())),
+			// the PKCS#8 v2 layout older ring versions wrote for Ed25519 ([1] { BIT STRING public key })
+			11 if k.alg == KeyAlg::Ed25519 => rcgen::KeyPair::from_pkcs8_der_and_sign_algo(&PrivatePkcs8KeyDer::from(ed25519_old_v2(fx)), alg),
+			7..=11 => rcgen::KeyPair::from_pkcs8_der_and_sign_algo(&pk8, alg),
 			_ => match (&fx.legacy, cfg!(feature = "aws_be")) {
 				// SEC1 / PKCS#1 documents are only documented to load under aws-lc-rs
 				(Some(l), true) => {
